@@ -303,6 +303,10 @@ func decodeStructValueSlice(field reflect.Value, fieldType reflect.StructField, 
 
 	value = strings.Trim(value, strip)
 
+	/* decode into an empty list: a struct that is reused for several
+	 * paragraphs must not accumulate the elements of the earlier ones */
+	field.Set(reflect.Zero(field.Type()))
+
 	if value == "" {
 		/* an empty field is an empty list, not a list of one empty element */
 		return nil
